@@ -22,6 +22,26 @@ PROPS = {
         "guards": ["accepted", "rejected-401", "rejected-403", "rejected-503", "kind-hmac", "kind-basic", "kind-forward"],
         "parts": [{"engine": "front", "test": "TestProp_C08_Auth", "quick": 2500, "thorough": 250000}],
     },
+    "C04": {
+        "rule": "transport parity tier: one generated history of dequeue / ack / nack / extend calls (lease ttl, nack delay and extend_by from {0, 1, 400, 900, 999, 1000, 1001, "
+                "1500, 2500, 30000} ms, extend also negative; current, stale and unknown lease ids) and clock moves is run on two identical worlds, through the Pull "
+                "HTTP handler and through the Worker gRPC service methods; after every call the answer class (ok / conflict / invalid / not found) and the queue "
+                "contents (state, attempt, next_run_at = lease deadline while leased, dead reason) must agree, and the gRPC world must obey the timing rules (lease "
+                "deadline = now+ttl, ready at now+delay after nack, deadline + extend_by after extend); non-trivial = a sub-second delay or extension took effect",
+        "assumptions": ["transport parity tier: Worker gRPC is driven through the service methods with metadata contexts, not over a socket"],
+        "guards": [],
+        "parts": [{"engine": "front", "test": "TestProp_C04_TransportParity", "quick": 1600, "thorough": 120000, "shards": {"quick": 4}}],
+    },
+    "C05": {
+        "rule": "transport parity tier: one generated history of dequeue / ack / nack / extend calls (lease ttl, nack delay and extend_by from {0, 1, 400, 900, 999, 1000, 1001, "
+                "1500, 2500, 30000} ms, extend also negative; current, stale and unknown lease ids) and clock moves is run on two identical worlds, through the Pull "
+                "HTTP handler and through the Worker gRPC service methods; after every call the answer class (ok / conflict / invalid / not found) and the queue "
+                "contents (state, attempt, next_run_at = lease deadline while leased, dead reason) must agree, and the gRPC world must obey the timing rules (lease "
+                "deadline = now+ttl, ready at now+delay after nack, deadline + extend_by after extend); non-trivial = a sub-second delay or extension took effect",
+        "assumptions": [],
+        "guards": [],
+        "parts": [{"engine": "front", "test": "TestProp_C05_TransportParity", "quick": 1600, "thorough": 120000, "shards": {"quick": 4}}],
+    },
     "C06": {
         "rule": "outbound wiring tier (real `hookaido run` process per case, wall clock): generated config text with egress allow/deny lists over IPs, CIDRs and host names, "
                 "a defaults retry next to per-target retry overrides and partial deliver blocks, 0-6 secret versions with validity windows days away from now, 1-3 "
